@@ -295,26 +295,31 @@ def run(c, facts, tier):
     c.ob("C08.prefix", "<PermCheck as Parseable>::parse", "same permission parser after every prefix", same, "inner parsers %s" % ([i["fn"] for i in cs["inners"]] if cs else None), nontrivial=False)
     # ---------------------------------------------------------------- check
     rows = codegen.expand(codegen.table(facts, "<Test as TargetScheme>::compile"))
-    cpc = facts.fn("scheme::target_scheme::compile_perm_check")
-    maskval = None
-    for st in cpc.body["stmts"]:
-        if st["k"] == "let" and st["pat"]["k"] == "ident" and find_all(st["init"], lambda n: n.get("k") == "path" and n["segs"][-1].startswith("S_I")):
-            try:
-                maskval = (bv(st["init"], {"__mask": 0o177777}, consts), st["pat"]["name"], src(st["init"]))
-            except Unknown:
-                pass
-    P = "{$PermCheck.0.0.bits()}"
+    TSITE = "<Test as TargetScheme>::compile"
+    P_RE = re.compile(r"\{\$PermCheck\.0\.0\.bits\(\)\}")
     want = {
-        "Equal": ["(", "=", "(", "logand", "(", "mode", ")", "MASK", ")", P, ")"],
-        "AtLeast": ["(", "=", "(", "logand", "(", "mode", ")", P, ")", P, ")"],
-        "Any": ["(", "not", "(", "=", "(", "logand", "(", "mode", ")", P, ")", "0", ")", ")"],
+        "Equal": ["(", "=", "(", "logand", "(", "mode", ")", "MASK", ")", "P", ")"],
+        "AtLeast": ["(", "=", "(", "logand", "(", "mode", ")", "P", ")", "P", ")"],
+        "Any": ["(", "not", "(", "=", "(", "logand", "(", "mode", ")", "P", ")", "0", ")", ")"],
     }
+    maskval = None
     for kind, exp in want.items():
         row = rows.get("self∈Test::Perm ∧ $Test.0∈PermCheck::%s" % kind)
         toks = list(row["tokens"]) if row else None
         ok = False
         if toks and len(toks) == len(exp):
-            ok = all(t == e_ or (e_ == "MASK" and t.startswith("{") and t != P and maskval is not None and "$" not in t) for t, e_ in zip(toks, exp))
-        c.ob("C08.check", cpc.key, kind, ok, "emits `%s`" % (" ".join(toks) if toks else None), witness="-perm %s644" % {"Equal": "", "AtLeast": "-", "Any": "/"}[kind] if not ok else None)
-    c.ob("C08.check", cpc.key, "the Equal mask is all twelve permission bits", maskval is not None and maskval[0] == int(posix["perm_mask"], 8), "mask `%s` = %s; POSIX %s" % (maskval[2][:80] if maskval else None, oct(maskval[0]) if maskval else None, posix["perm_mask"]))
+            ok = True
+            for t, e_ in zip(toks, exp):
+                if e_ == "P":
+                    ok = ok and P_RE.fullmatch(t) is not None
+                elif e_ == "MASK":
+                    # a constant: the interpreter folds flag expressions, so the mask appears as a number
+                    if re.fullmatch(r"\d+", t):
+                        maskval = int(t)
+                    else:
+                        ok = False
+                else:
+                    ok = ok and t == e_
+        c.ob("C08.check", TSITE, kind, ok, "emits `%s`" % (" ".join(toks) if toks else None), witness="-perm %s644" % {"Equal": "", "AtLeast": "-", "Any": "/"}[kind] if not ok else None)
+    c.ob("C08.check", TSITE, "the Equal mask is all twelve permission bits", maskval is not None and maskval == int(posix["perm_mask"], 8), "mask %s; POSIX %s" % (oct(maskval) if maskval is not None else None, posix["perm_mask"]))
     c.control("C08.algebra", any(pyeval("m & ~(t & ~l)", m_, t_, l_, 1) != pyeval(chmod["algebra"]["-"], m_, t_, l_, 1) for m_, t_, l_ in itertools.product((0, 1), repeat=3)), "fixture m∧¬(t∧¬l) differs from chmod '-' on the truth table")
